@@ -264,21 +264,21 @@ Section L3.
       unfold TypePrint.reparse. cbn [params_gen name_of]. unfold float_params, fmin_key, fmax_key.
       zb; cbn; unfold new_range, fmin_key, fmax_key; zb; try subst; reflexivity.
     - (* StringSz *)
-      apply andb_true_iff in Hok. destruct Hok as [Hok H3]. apply andb_true_iff in Hok. destruct Hok as [H1 H2].
-      apply range_ok_spec in H1. apply negb_true_iff in H2, H3. apply andb_false_iff in H2.
-      unfold is_positive in H3. unfold min_int64, max_int64 in *.
+      apply andb_true_iff in Hok. destruct Hok as [H1 H2].
+      apply range_ok_spec in H1. apply negb_true_iff in H2.
+      unfold min_int64, max_int64 in *.
       unfold TypePrint.reparse. cbn [params_gen name_of]. unfold int_params, min_int64, max_int64.
       destruct (Z.eqb_spec lo (-9223372036854775808)) as [El|Hl];
         destruct (Z.eqb_spec hi 9223372036854775807) as [Eh|Hh].
-      + exfalso. destruct H2 as [H2|H2]; discriminate H2.
+      + exfalso. subst lo hi. cbn in H2. discriminate H2.
       + (* default, hi *)
-        cbn. unfold new_range, new_string_sized, is_positive, min_int64, max_int64.
+        cbn. unfold new_range, new_string_sized, min_int64, max_int64.
         destruct (Z.ltb_spec hi (-9223372036854775808)); [lia|]. cbn.
         destruct (Z.eqb_spec hi 9223372036854775807); [lia|]. rewrite ?andb_false_r. subst lo. reflexivity.
-      + cbn. unfold new_range, new_string_sized, is_positive, min_int64, max_int64.
+      + cbn. unfold new_range, new_string_sized, min_int64, max_int64.
         destruct (Z.ltb_spec 9223372036854775807 lo); [lia|]. cbn.
-        subst hi. rewrite H3. destruct (Z.eqb_spec lo (-9223372036854775808)); [lia|]. reflexivity.
-      + cbn. unfold new_range, new_string_sized, is_positive, min_int64, max_int64.
+        subst hi. rewrite H2. reflexivity.
+      + cbn. unfold new_range, new_string_sized, min_int64, max_int64.
         destruct (Z.ltb_spec hi lo); [lia|]. cbn.
         destruct (Z.eqb_spec hi 9223372036854775807); [lia|]. rewrite !andb_false_r. reflexivity.
     - (* Enum *)
